@@ -7,8 +7,11 @@ import sys
 import time
 
 VERIF = os.path.dirname(os.path.dirname(os.path.abspath(__file__)))
-EVIDENCE_DIR = os.path.join(VERIF, "evidence")
-REPLAY_DIR = os.path.join(VERIF, "replays")
+# the registered commands always write to /verif/evidence and /verif/replays; the seeded-change runner
+# (engine/seeded_run.py) redirects both so that runs on a deliberately broken tree never touch them
+EVIDENCE_DIR = os.environ.get("VERIF_EVIDENCE_DIR") or os.path.join(VERIF, "evidence")
+REPLAY_DIR = os.environ.get("VERIF_REPLAY_DIR") or (os.path.join(os.environ["VERIF_EVIDENCE_DIR"], "replays")
+                                                    if os.environ.get("VERIF_EVIDENCE_DIR") else os.path.join(VERIF, "replays"))
 KNOWN_FILE = os.path.join(VERIF, "known_findings.json")
 
 EXIT_OK, EXIT_VIOLATION, EXIT_BROKEN = 0, 1, 2
